@@ -2,11 +2,14 @@ import CJ.Drv.Loop
 import CJ.Drv.Codec
 import CJ.Drv.Ingress
 import CJ.Drv.IngressMsg
+import CJ.Drv.DnsHandler
 /-! Driver for C11: the byte-level parsers (codec model) and the entry-point models. -/
 open CJ.Drv
 
 def main : IO Unit := runDriver fun
+  | "codec" :: "trimsuffix" :: args => DnsHandler.trimSuffixLine args
   | "codec" :: args => Codec.handle args
+  | "ingress" :: "dnsreq" :: args => DnsHandler.handle args
   | "ingress" :: "c2sw" :: args => IngressMsg.handle ("c2sw" :: args)
   | "ingress" :: "bdreq" :: args => IngressMsg.handle ("bdreq" :: args)
   | "ingress" :: "zmq" :: args => IngressMsg.handle ("zmq" :: args)
